@@ -472,6 +472,10 @@ func (s *Syncer) releaseInflight(key string) {
 
 func (s *Syncer) runPeer(p *Peer) {
 	defer func() {
+		// the peer is no longer served; make sure its connection is closed,
+		// also when the syncer was closed before the peer could be served
+		p.Close()
+
 		s.mu.Lock()
 		delete(s.peers, p.t.Addr)
 		verifEvent("s.rmpeer", s.verifID(), s.verifPeers(p.Inbound))
@@ -487,6 +491,19 @@ func (s *Syncer) runPeer(p *Peer) {
 	}
 	defer done()
 	verifEvent("s.peer.run", s.verifID(), p.verifID())
+
+	// close the peer when the syncer shuts down: Run only closes the peers
+	// that are connected when it starts to shut down, a peer added after that
+	// would keep waiting for its next RPC and block Close
+	stopped := make(chan struct{})
+	defer close(stopped)
+	go func() {
+		select {
+		case <-s.tg.Done():
+			p.Close()
+		case <-stopped:
+		}
+	}()
 
 	subnet := s.subnetKey(p.ConnAddr)
 	inflight := make(chan struct{}, s.config.MaxInflightRPCs)
